@@ -72,15 +72,46 @@ theorem C09_append_err_unchanged {E : Impl.Env} {db : Impl.Db} {t o d : Bytes} {
   nomatch h'
 
 /-- `Append` fails exactly for: a type outside `ValidEFISignatureSchemes`, an entry that is
-    already present (after normalisation), a SHA-256 entry whose data is not 32 bytes.
+    already present (after normalisation), a SHA-256 entry whose data is not 32 bytes, an
+    externally-managed entry whose data is not one byte (F37: `SignatureSize` is 16+1 for
+    `EFI_CERT_EXTERNAL_MANAGEMENT_GUID`, and the decoder accepts nothing else).
     The invariant is not needed (hypothesis dropped); with `hidem`, `sizeMismatch` cannot occur
     because the list is chosen by `size = |E.norm t d| + 16`. -/
 theorem C09_append_err_iff {E : Impl.Env} {db : Impl.Db} {t o d : Bytes}
     (hidem : E.norm t (E.norm t d) = E.norm t d) :
     (∃ e, db.append E t o d = .error e) ↔
       (t ∉ Impl.schemes ∨ (t, o, E.norm t d) ∈ Impl.abs db ∨
-        (t = Impl.guidSha256 ∧ (E.norm t d).length ≠ 32)) :=
+        (t = Impl.guidSha256 ∧ (E.norm t d).length ≠ 32) ∨
+        (t = Impl.guidExternal ∧ (E.norm t d).length ≠ 1)) :=
   Impl.Db.append_error_iff hidem
+
+/-- "a wrongly-sized append reports an error and changes nothing", with no hypothesis at all (no
+    invariant, any normalisation function, whatever lists are present): SHA-256 data that is not 32
+    bytes and externally-managed data that is not one byte (F37) are refused. -/
+theorem C09_append_wrong_size {E : Impl.Env} {db : Impl.Db} {t o d : Bytes}
+    (h : (t = Impl.guidSha256 ∧ d.length ≠ 32) ∨ (t = Impl.guidExternal ∧ d.length ≠ 1)) :
+    ∃ e, db.append E t o d = .error e := by
+  have hn : E.norm t d = d := by
+    rcases h with h | h
+    · simp [Impl.Env.norm, h.1, Impl.guidSha256_ne_guidX509]
+    · simp [Impl.Env.norm, h.1, Impl.guidExternal_ne_guidX509]
+  apply (Impl.Db.append_error_iff (by rw [hn, hn])).mpr
+  rw [hn]
+  exact Or.inr (Or.inr h)
+
+/-- Conversely, every entry of a successful `Append` — and of a successful list-level
+    `AppendBytes` — has the size the specification fixes for its type, so every list that holds it
+    obeys the size rule of its type (`Impl.SList.Sized`: SHA-256 lists have signature size 48,
+    externally-managed lists 17), whatever the list looked like before. -/
+theorem C09_append_sized {E : Impl.Env} {db db' : Impl.Db} {t o d : Bytes}
+    (hs : Impl.Db.Sized db) (h : db.append E t o d = .ok db') : Impl.Db.Sized db' :=
+  Impl.appendInto_sized hs (Impl.Db.append_ok h).2.2
+
+theorem C09_list_append_sized {E : Impl.Env} {l l' : Impl.SList} {o d : Bytes}
+    (h : l.appendBytes E o d = .ok l') :
+    l'.Sized ∧ (l.type = Impl.guidSha256 → (E.norm l.type d).length = 32) ∧
+      (l.type = Impl.guidExternal → (E.norm l.type d).length = 1) :=
+  ⟨Impl.appendBytes_sized h, Impl.appendBytes_ok_sized h⟩
 
 /-- F27 repair: the list-level `AppendBytes` rejects data whose PEM-decoded form is already in the
     list (it used to look for the undecoded bytes and then store the decoded ones a second time). -/
@@ -169,13 +200,23 @@ example : Ex.db.append Ex.env Impl.guidX509 Ex.owner1 [9, 9, 9] = .ok
 example : (Ex.db.append Ex.pemEnv Impl.guidX509 Ex.owner1 [0x2d]).toOption.map
     (fun db' => decide ((Impl.guidX509, Ex.owner1, [0x30, 0x03, 0x02, 0x01]) ∈ Impl.abs db'))
     = some true := by decide +kernel
-/-- … and fails for each of the three reasons of `C09_append_err_iff` -/
+/-- … and fails for each of the four reasons of `C09_append_err_iff` -/
 example : Ex.db.append Ex.env (List.replicate 16 0) Ex.owner1 [1] = .error .noScheme := by
   decide +kernel
 example : Ex.db.append Ex.env Impl.guidX509 Ex.owner1 [1, 2, 3, 4] = .error .exists := by
   decide +kernel
 example : Ex.db.append Ex.env Impl.guidSha256 Ex.owner1 [1, 2, 3, 4] = .error .notSha256 := by
   decide +kernel
+/-- F37: the witness of the finding — two bytes of externally-managed data, into the empty database
+    and into one that holds lists — and the empty value; one byte is taken -/
+example : Impl.Db.append Ex.env [] Impl.guidExternal Ex.owner1 [1, 2] = .error .notExternal := by
+  decide +kernel
+example : Ex.db.append Ex.env Impl.guidExternal Ex.owner1 [1, 2] = .error .notExternal := by
+  decide +kernel
+example : Ex.db.append Ex.env Impl.guidExternal Ex.owner1 [] = .error .notExternal := by
+  decide +kernel
+example : Impl.Db.append Ex.env [] Impl.guidExternal Ex.owner1 [1]
+    = .ok [⟨Impl.guidExternal, 45, 0, 17, [], [⟨Ex.owner1, [1]⟩]⟩] := by decide +kernel
 /-- idempotence holds for both example environments -/
 example : Ex.env.Idem ∧ Ex.pemEnv.Idem := ⟨Ex.env_idem, Ex.pemEnv_idem⟩
 
@@ -249,3 +290,6 @@ end GoUefi.C09
 #print axioms GoUefi.C09.C09_reachable_wf
 #print axioms GoUefi.C09.C09_reachable_wf_any_norm
 #print axioms GoUefi.C09.C09_list_append_no_duplicate
+#print axioms GoUefi.C09.C09_append_wrong_size
+#print axioms GoUefi.C09.C09_append_sized
+#print axioms GoUefi.C09.C09_list_append_sized
